@@ -178,7 +178,7 @@ def bounds(tier):
             "depth2": "one child depth-1 (over %s atoms), other child from 4 atoms; plus both children depth-1 over "
                       "reduced atoms" % ("all 11" if tier == "thorough" else "11 x 4"),
             "depth3": "over atoms {x, 1}: one child depth-2, other atom (thorough only)" if tier == "thorough" else "-",
-            "backticks": "every pool name x 8 syntactic positions"}
+            "backticks": "every pool name x 8 syntactic positions; every depth-1 expression with all identifiers quoted"}
 
 
 def shards(tier, seed):
@@ -322,8 +322,52 @@ BT_CONTEXTS = ["%s", "%s + 1", "f(%s)", "f(1, k=%s)", "%s(1)", "x[%s]", "%s[0]",
 BT_NAMES = IDENTS + ["<func>f", "<p>a:b", "<cond>", "a0_", "<ret_state>y"]
 
 
+def quote_tree(t):
+    k = t[0]
+    if k == "v":
+        return ("v", "`%s`" % t[1])
+    if k == "c":
+        return t
+    out = [k]
+    for i, c in enumerate(t[1:], 1):
+        if isinstance(c, tuple):
+            out.append(quote_tree(c))
+        elif isinstance(c, str) and k in ("call1", "call2", "callkw", "callkw2", "curry") and i == 1:
+            out.append("`%s`" % c)
+        else:
+            out.append(c)
+    return tuple(out)
+
+
+def check_quoted(t):
+    """every identifier of t backtick-quoted: must parse to the plain expression"""
+    from dagrt.expression import parse
+    r, s = check(t)
+    if r is not None:
+        return None          # the plain round trip already fails (reported there)
+    q = str(build(quote_tree(t)))
+    try:
+        p = parse(q)
+    except Exception as ex:
+        return ("backtick", "parse(%r) raised %s: %s" % (q, type(ex).__name__, str(ex)[:150]))
+    if str(p) != s:
+        return ("backtick", "parse(%r) prints as %r, expected %r" % (q, str(p), s))
+    return None
+
+
 def check_backticks(acc):
     from dagrt.expression import parse
+    for t in gen("quick", "d1"):
+        if t[0] in ("v", "c"):
+            continue
+        acc.evaluations += 1
+        r = check_quoted(t)
+        if r is not None:
+            sh = shape(t)
+            if not any(v["sig"] == "C19/backtick:quoted " + sh for v in acc.violations):
+                acc.violation("backtick", "C19/backtick:quoted " + sh, {"quoted_tree": t}, r[1])
+        else:
+            acc.nontrivial += 1
     import re
     lex = re.compile(r"^[<>:a-zA-Z0-9_]*$")
     for name in BT_NAMES:
@@ -386,6 +430,11 @@ def run_shard(desc, acc):
 
 
 def replay(witness):
+    if "quoted_tree" in witness:
+        t = totuple(witness["quoted_tree"])
+        r = check_quoted(t)
+        return [] if r is None else [{"sub": "backtick", "sig": "C19/backtick:quoted " + shape(t),
+                                      "witness": witness, "detail": r[1]}]
     if "backtick" in witness:
         acc = kernel.Acc()
         check_backticks(acc)
